@@ -419,8 +419,15 @@ func genStoreCase(r *rand.Rand, id int) *Case {
 	case 1:
 		srcs = append(srcs, J{"k": "ovd", "e": eAcct("world"), "b": eMon(eAsset(S), eNum(5))})
 	}
-	if r.Intn(8) == 0 {
-		newVar("monetary", J{"k": "call", "name": "balance", "args": jl(eAcct("world"), eAsset(S))}, J{"t": "none"})
+	if r.Intn(3) == 0 {
+		// the store happens to hold an entry for @world (a ledger does): it is never asked for and must not matter
+		c.Bal["world"] = map[string]int64{S: int64(pick(r, []int{40, -40, 7}))}
+	}
+	if r.Intn(6) == 0 {
+		n := newVar("monetary", J{"k": "call", "name": "balance", "args": jl(eAcct("world"), eAsset(S))}, J{"t": "none"})
+		if r.Intn(2) == 0 {
+			balVars = append(balVars, n)
+		}
 	}
 	var src J = J{"k": "seq", "s": srcs}
 	if r.Intn(8) == 0 && len(leaves) >= 2 {
@@ -486,6 +493,43 @@ func genStoreCase(r *rand.Rand, id int) *Case {
 			c.Meta["m"] = map[string]string{"other": "x"}
 		}
 		c.Stmts = append(c.Stmts, J{"k": "call", "name": "set_account_meta", "args": jl(eAcct("m"), eStr(pick(r, []string{"written", "other", "ka"})), eNum(7))})
+	}
+	if r.Intn(3) == 0 {
+		// interleaved statements over both assets and the same few accounts: whatever is requested late (or not at
+		// all) shows as a difference between the store behaviours
+		c.Stmts = nil
+		n := 2 + r.Intn(3)
+		for _, a := range leaves {
+			// pairs the store holds no entry for at all
+			if r.Intn(2) == 0 && c.Bal[a] != nil {
+				delete(c.Bal[a], other)
+			}
+		}
+		for i := 0; i < n; i++ {
+			as := pick(r, []string{S, S, other})
+			a := pick(r, leaves)
+			if r.Intn(3) == 0 {
+				if r.Intn(3) == 0 {
+					c.Stmts = append(c.Stmts, J{"k": "save", "all": true, "sent": eAsset(as), "e": acctExpr[a]})
+				} else {
+					c.Stmts = append(c.Stmts, J{"k": "save", "all": false, "sent": eMon(eAsset(as), eNum(pick(r, []int{1, 4, 8}))), "e": acctExpr[a]})
+				}
+				continue
+			}
+			parts := []any{J{"k": "acct", "e": acctExpr[a]}}
+			if r.Intn(2) == 0 {
+				parts = append(parts, J{"k": "acct", "e": eAcct(pick(r, accts))})
+			}
+			var sq J = J{"k": "seq", "s": parts}
+			if r.Intn(3) == 0 {
+				sq = J{"k": "cap", "c": eMon(eAsset(as), eNum(pick(r, []int{3, 10, 25}))), "s": sq}
+			}
+			if r.Intn(4) == 0 {
+				sq = J{"k": "seq", "s": []any{sq, J{"k": "acct", "e": eAcct("world")}}}
+			}
+			c.Stmts = append(c.Stmts, J{"k": "send", "all": false, "sent": eMon(eAsset(as), eNum(pick(r, []int{1, 5, 10, 30, 45, 60}))),
+				"src": sq, "dst": J{"k": "acct", "e": eAcct(pick(r, []string{"x", "y", "a", "b"}))}})
+		}
 	}
 	if c.Decls == nil {
 		c.Decls = []any{}
